@@ -263,3 +263,130 @@ func RandomLexSpecs(seed int64, want int) []*LexSpec {
 	}
 	return out
 }
+
+// ---- structured variation of corpus grammars ------------------------------------------------
+
+// varyGrammar applies a few random, mostly LR(1)-preserving transformations to a corpus
+// grammar: wrap a terminal in a fresh nonterminal, insert a nullable nonterminal, put a unit
+// chain in front of a nonterminal, add an alternative with an extra leading terminal, and
+// reorder the productions (start symbol stays first). Pure random grammars that are
+// conflict-free are almost always trivial; these keep the richness of the corpus.
+func varyGrammar(rng *rand.Rand, base *SynGrammar, id int) *SynGrammar {
+	g := &SynGrammar{Name: fmt.Sprintf("V%s_%d", base.Name, id), Why: "variation of " + base.Name, Lex: stdLex}
+	for _, p := range base.Prods {
+		body := make([]Sym, len(p.Body))
+		for i, s := range p.Body {
+			if s.Term && !s.Lit && !s.Error {
+				s = Lit(s.Name) // corpus token ids become literals: the lexical part is the standard one
+			}
+			body[i] = s
+		}
+		g.Prods = append(g.Prods, Prod{Head: p.Head, Body: body})
+	}
+	fresh := 0
+	newNT := func() string {
+		fresh++
+		return fmt.Sprintf("N%d", fresh)
+	}
+	nsteps := 3 + rng.Intn(4)
+	for step := 0; step < nsteps; step++ {
+		switch rng.Intn(6) {
+		case 5: // a nonterminal in a second look-ahead context (same cores, other look-aheads)
+			var nts []string
+			for _, p := range g.Prods[1:] {
+				if p.Head != g.Prods[0].Head {
+					nts = append(nts, p.Head)
+				}
+			}
+			if len(nts) > 0 {
+				b := nts[rng.Intn(len(nts))]
+				h := g.Prods[rng.Intn(len(g.Prods))].Head
+				g.Prods = append(g.Prods, Prod{Head: h, Body: []Sym{Lit(fmt.Sprintf("x%d", step)), NT(b), Lit(fmt.Sprintf("y%d", step))}})
+			}
+		case 0: // wrap a terminal occurrence
+			pi := rng.Intn(len(g.Prods))
+			for k, s := range g.Prods[pi].Body {
+				if s.Term && !s.Error {
+					n := newNT()
+					g.Prods[pi].Body[k] = NT(n)
+					g.Prods = append(g.Prods, Prod{Head: n, Body: []Sym{s}})
+					break
+				}
+			}
+		case 1: // insert a nullable nonterminal
+			pi := rng.Intn(len(g.Prods))
+			n := newNT()
+			pos := rng.Intn(len(g.Prods[pi].Body) + 1)
+			nb := append([]Sym{}, g.Prods[pi].Body[:pos]...)
+			nb = append(nb, NT(n))
+			nb = append(nb, g.Prods[pi].Body[pos:]...)
+			g.Prods[pi].Body = nb
+			g.Prods = append(g.Prods, Prod{Head: n, Body: []Sym{Lit(fmt.Sprintf("o%d", fresh))}}, Prod{Head: n})
+		case 2: // unit chain in front of a nonterminal occurrence
+			pi := rng.Intn(len(g.Prods))
+			for k, s := range g.Prods[pi].Body {
+				if !s.Term {
+					n1, n2 := newNT(), newNT()
+					g.Prods[pi].Body[k] = NT(n1)
+					g.Prods = append(g.Prods, Prod{Head: n1, Body: []Sym{NT(n2)}}, Prod{Head: n2, Body: []Sym{s}})
+					break
+				}
+			}
+		case 3: // a second context: an alternative with an extra leading terminal
+			pi := rng.Intn(len(g.Prods))
+			if len(g.Prods[pi].Body) > 0 {
+				nb := append([]Sym{Lit(fmt.Sprintf("p%d", step))}, g.Prods[pi].Body...)
+				g.Prods = append(g.Prods, Prod{Head: g.Prods[pi].Head, Body: nb})
+			}
+		case 4: // reorder (keep the first production first)
+			rest := g.Prods[1:]
+			rng.Shuffle(len(rest), func(i, j int) { rest[i], rest[j] = rest[j], rest[i] })
+		}
+	}
+	// alternatives of one nonterminal are written together in the BNF: keep the production
+	// numbering of the reference construction the same as gocc's (grouped by head, heads in
+	// order of first appearance)
+	var heads []string
+	byHead := map[string][]Prod{}
+	for _, p := range g.Prods {
+		if _, ok := byHead[p.Head]; !ok {
+			heads = append(heads, p.Head)
+		}
+		byHead[p.Head] = append(byHead[p.Head], p)
+	}
+	g.Prods = nil
+	for _, h := range heads {
+		g.Prods = append(g.Prods, byHead[h]...)
+	}
+	return g
+}
+
+// VariedGrammars draws conflict-free (or conflicting) variations of the corpus grammars.
+func VariedGrammars(seed int64, want int, conflicting bool) []*SynGrammar {
+	rng := rand.New(rand.NewSource(seed*15485863 + 3))
+	bases := SynCorpus
+	if conflicting {
+		bases = ConflictCorpus
+	}
+	var out []*SynGrammar
+	for id := 0; len(out) < want && id < 2000; id++ {
+		base := bases[rng.Intn(len(bases))]
+		g := varyGrammar(rng, base, id)
+		if !usesAllNTs(g) && base.Name != "G05" {
+			continue
+		}
+		if hasDerivationCycle(g) {
+			continue
+		}
+		r := BuildRefLR(g)
+		if len(r.States) > 60 || r.Conflict != conflicting {
+			continue
+		}
+		if conflicting {
+			g.Flags = []string{"-a"}
+		}
+		g.Name = fmt.Sprintf("V%d_%s_%d", seed, base.Name, id)
+		out = append(out, g)
+	}
+	return out
+}
